@@ -96,12 +96,14 @@ def run(ctx, R, tier):
     for n in cfg.nodes:
         if n.kind != "test" or not isinstance(n.ast, ast.If):
             continue
-        t = n.ast.test
+        from ..engine.guards import strip_not
+        t, tpol = strip_not(n.ast.test)
         if isinstance(t, ast.Compare) and len(t.ops) == 1 and isinstance(t.ops[0], ast.Eq) and unparse(t.left) == cname and isinstance(t.comparators[0], ast.Constant):
             tag = t.comparators[0].value
+            branch_body = n.ast.body if tpol else n.ast.orelse
             if tag.startswith("Pyro5.util."):
                 # legacy alias tags of the serializer classes: the branch must build the serializer of that name
-                body_calls = [x for st in n.ast.body for x in walk_no_nested(st) if isinstance(x, ast.Call)]
+                body_calls = [x for st in branch_body for x in walk_no_nested(st) if isinstance(x, ast.Call)]
                 cls = tag.rsplit(".", 1)[1]
                 ok = any(dotted(x.func) == cls for x in body_calls) and ("Pyro5.serializers." + cls) in p.classes
                 R.check(ok, "C07-R2", "tag:%s" % tag, "legacy serializer tag builds the serializer class of that name", d2c.loc(n.ast), "branch for %s builds something else" % tag)
@@ -111,7 +113,7 @@ def run(ctx, R, tier):
                 continue
             n_tags += 1
             exists = tag in p.classes
-            body_calls = [x for st in n.ast.body for x in walk_no_nested(st) if isinstance(x, ast.Call)]
+            body_calls = [x for st in branch_body for x in walk_no_nested(st) if isinstance(x, ast.Call)]
             builds = False
             for x in body_calls:
                 for ty in ctx.cg.expr_types(x, d2c):
